@@ -25,6 +25,13 @@ func init() {
 			dumpAssert(p)
 		case "effects":
 			dumpEffects(p, os.Args[3:])
+		case "scantable":
+			rows, err := p.scanTable()
+			fmt.Println(err)
+			tt := p.tokenTable()
+			for _, r := range rows {
+				fmt.Printf("%q %q two=%v kind=%s tok=%s lit=%q callee=%s consumed=%d\n", r.c0, r.c1, r.twoRunes, r.kind, tt.Name[r.tok], r.lit, r.callee, r.consumed)
+			}
 		case "mapranges":
 			for _, fb := range p.funcBodies() {
 				if fb.Lit != nil {
